@@ -193,7 +193,11 @@ class DefaultPredictionStrategy(object):
         prefix = string.ascii_lowercase[: max(fant_train_covar.dim() - self.mean_cache.dim() - 1, 0)]
         ftcm = torch.einsum(prefix + "...yz,...z->" + prefix + "...y", [fant_train_covar, self.mean_cache])
 
-        small_system_rhs = targets - fant_mean - ftcm
+        if isinstance(full_output, MultitaskMultivariateNormal):
+            # `... x m x t` targets and means are flattened to the `... x mt` layout of the (interleaved) covariance
+            small_system_rhs = targets.reshape(*targets.shape[:-2], -1) - fant_mean.reshape(*fant_mean.shape[:-2], -1) - ftcm
+        else:
+            small_system_rhs = targets - fant_mean - ftcm
         small_system_rhs = small_system_rhs.unsqueeze(-1)
         # Schur complement of a spd matrix is guaranteed to be positive definite
         schur_cholesky = psd_safe_cholesky(schur_complement)
@@ -219,7 +223,7 @@ class DefaultPredictionStrategy(object):
         # Expand inputs accordingly if necessary (for fantasies at the same points)
         if full_inputs[0].dim() <= full_targets.dim():
             fant_batch_shape = full_targets.shape[:1]
-            n_batch = len(full_mean.shape[:-1])
+            n_batch = len(batch_shape)
             repeat_shape = fant_batch_shape + torch.Size([1] * n_batch)
             full_inputs = [fi.expand(fant_batch_shape + fi.shape) for fi in full_inputs]
             full_mean = full_mean.expand(fant_batch_shape + full_mean.shape)
@@ -229,6 +233,8 @@ class DefaultPredictionStrategy(object):
 
         if isinstance(full_output, MultitaskMultivariateNormal):
             full_mean = full_mean.view(*target_batch_shape, -1, num_tasks).contiguous()
+            # the new strategy flattens its `... x (n + m) x t` labels itself
+            full_targets = full_targets.view(*target_batch_shape, -1, num_tasks)
 
         # Create new DefaultPredictionStrategy object
         fant_strat = self.__class__(
